@@ -15,7 +15,7 @@ from .vkernel import K, O, HarnessError, SimKilled
 
 
 class Chooser(object):
-    """strategies: 'uniform', 'pct', 'sweep', 'replay'"""
+    """strategies: 'uniform', 'pct', 'sweep', 'sweepfault', 'replay'"""
 
     def __init__(self, rng, strategy='uniform', nprocs=2, choices=None, depth=2, est_ops=200, sweep=None):
         self.rng = rng
@@ -29,6 +29,7 @@ class Chooser(object):
             self.change = sorted(rng.randrange(1, max(2, est_ops)) for _ in range(depth))
         self.sweep = sweep or {}
         self.shared_ops = {}
+        self.after_fault = 0
 
     def choose(self, cur, runnable, ev, shared):
         """cur: pid currently holding the baton (None at start / after exit);
@@ -59,6 +60,19 @@ class Chooser(object):
             if shared and cur == a:
                 self.shared_ops[a] = self.shared_ops.get(a, 0) + 1
             if a in runnable and self.shared_ops.get(a, 0) <= k:
+                c = a
+            else:
+                others = [p for p in runnable if p != a]
+                c = others[0] if others else a
+        elif self.strategy == 'sweepfault':
+            # run process A until j shared ops after an injected fault has
+            # fired in it (i.e. into its recovery path), then the others to
+            # completion, then A
+            a, j = self.sweep.get('pid', 1), self.sweep.get('j', 0)
+            fired = bool(K.fired)
+            if fired and shared and cur == a:
+                self.after_fault += 1
+            if a in runnable and (not fired or self.after_fault <= j):
                 c = a
             else:
                 others = [p for p in runnable if p != a]
